@@ -69,7 +69,7 @@ func runC14(e *Env) {
 	r.Rule("C14.R2", "locks", "Map.data is accessed only with Map.mutex in the must-hold set (write lock for writes); MutexMap.ma / entry.cnt only under MutexMap.ml", 30)
 	r.Rule("C14.R3", "locks", "each Map/Cache operation touches the guarded state in one critical section (or double-checked form); callbacks run in the documented lock context", 26)
 	r.Rule("C14.R4", "locks", "callbacks passed to Range do not blindly mutate the same container; only compare-and-act on the inspected value", 1)
-	r.Rule("C14.R5", "paths", "expiry predicate and its use: expired ⇔ deadline set ∧ now.After(deadline); LoadOrStore/Load/CheckExpirations act on a non-expired entry only as the identity", 5)
+	r.Rule("C14.R5", "paths", "expiry predicate and its use: expired ⇔ deadline set ∧ now.After(deadline); LoadOrStore/Load/CheckExpirations act on a non-expired entry only as the identity", 6)
 
 	mapMethods := methodsOf(e, "C14.R1", "pkg/sync.Map")
 	cacheMethods := methodsOf(e, "C14.R3", "pkg/cache.Cache")
@@ -581,8 +581,9 @@ func compareStyle(inner *ssa.Function, stale *ssa.Parameter) string {
 }
 
 // checkExpiryPredicate (C14.R5).
-func checkExpiryPredicate(e *Env) {
-	rule := "C14.R5"
+func checkExpiryPredicate(e *Env) { checkExpiryPredicateAs(e, "C14.R5") }
+
+func checkExpiryPredicateAs(e *Env, rule string) {
 	// (a) Element.IsExpired
 	if f := e.fn(rule, "pkg/cache.Element.IsExpired"); f != nil && len(f.Params) == 2 {
 		now := f.Params[1]
@@ -659,12 +660,37 @@ func checkExpiryPredicate(e *Env) {
 			w := q.Find()
 			e.R.Check(w == nil, rule, "pkg/cache.Cache.LoadOrStore:keeps-live-entry", e.pos(c.(ssa.Instruction)),
 				"with the key present and not expired every return of the callback is (oldValue, false)", "a present, non-expired entry can be replaced or deleted: "+e.trace(w))
+			// … and with the key present but EXPIRED the new element replaces it (the slot is fresh again)
+			q2 := &core.PathQuery{Fn: inner,
+				Target: func(in ssa.Instruction) bool {
+					ret, ok := in.(*ssa.Return)
+					if !ok {
+						return false
+					}
+					return core.RetVal(ret, 0) == ssa.Value(oldV) // keeps the expired element
+				},
+				EdgeOK: core.ForcedEdges(func(i *ssa.If) int {
+					cond, neg := core.StripNot(i.Cond)
+					s := 0
+					if cond == ssa.Value(oldLoaded) {
+						s = 1
+					} else if _, ok := core.CondCall(cond, "pkg/cache.Element.IsExpired"); ok {
+						s = 1
+					}
+					if neg {
+						s = -s
+					}
+					return s
+				})}
+			w2 := q2.Find()
+			e.R.Check(w2 == nil, rule, "pkg/cache.Cache.LoadOrStore:replaces-expired-entry", e.pos(c.(ssa.Instruction)),
+				"with the key present but expired the callback stores the new element", "an expired entry is kept instead of being replaced: the key never becomes fresh again until a sweep runs: "+e.trace(w2))
 			// the expiry test must be on the old value with a time obtained before (not a constant)
 			nIs := len(core.CallsNamed(inner, "pkg/cache.Element.IsExpired"))
 			e.R.Check(nIs >= 1, rule, "pkg/cache.Cache.LoadOrStore:tests-expiry", e.pos(c.(ssa.Instruction)), "expiry of the old value is consulted", "the callback never consults IsExpired")
 		}
 		if !done {
-			e.R.Undecided(rule, "pkg/cache.Cache.LoadOrStore:keeps-live-entry", e.fpos(f), "LoadOrStore no longer has the ReplaceWithFunc shape; rule needs an update")
+			e.R.Fail(rule, "pkg/cache.Cache.LoadOrStore:replaces-expired-entry", e.fpos(f), "Cache.LoadOrStore does not consult the expiry of the existing element (no ReplaceWithFunc callback testing IsExpired): an expired entry blocks its key until a sweep removes it, while Load already hides it")
 		}
 	}
 	// (c) Cache.Load: a non-nil result only on the not-expired edge
